@@ -125,7 +125,9 @@ func observeImage(root, name, header string, img map[string][]byte, openLine str
 			ops = append(ops, "probe times 95 135")
 		}
 		ops = append(ops, "close", "files", openLine, "probe scan", "close", "files", openLine,
-			"pub 140|6b|7072", "probe scan", "close", "checkall")
+			"pub 140|6b|7072", "probe scan", "close", "checkall",
+			// what was appended and closed after the recovery must survive the next recovery
+			openLine, "probe scan", "close")
 		runOps(st, ops, true)
 	}
 	if st.log != nil {
@@ -304,14 +306,20 @@ func powerLossImages(ev fsEvent) []map[string][]byte {
 		}
 		one[n] = c
 		res = append(res, one)
-		// and a cut in the middle of the unsynced tail
-		if mid := (len(c) + len(ev.image[n])) / 2; mid > len(c) && mid < len(ev.image[n]) {
-			two := map[string][]byte{}
-			for m, b := range ev.image {
-				two[m] = b
+		// and cuts inside the unsynced tail: the middle, and around the 28-byte record header of the first
+		// unsynced record (a file keeps any prefix at least as long as what was fsynced)
+		seen := map[int]bool{len(c): true, len(ev.image[n]): true}
+		for _, at := range []int{(len(c) + len(ev.image[n])) / 2, len(c) + 1, len(c) + 27, len(c) + 28, len(c) + 29, len(c) + 36,
+			len(ev.image[n]) - 1} {
+			if at > len(c) && at < len(ev.image[n]) && !seen[at] {
+				seen[at] = true
+				two := map[string][]byte{}
+				for m, b := range ev.image {
+					two[m] = b
+				}
+				two[n] = ev.image[n][:at]
+				res = append(res, two)
 			}
-			two[n] = ev.image[n][:mid]
-			res = append(res, two)
 		}
 	}
 	return res
